@@ -127,6 +127,11 @@ func lockAlphabet(slots int) func(m *model.Model) []model.Op {
 			}
 		}
 		ops = append(ops, model.Op{K: model.OpTouch, F: 3})
+		// a query opened inside a NewEntities callback that stays open after the call; closed at any later point
+		ops = append(ops, model.Op{K: model.OpLeakClose})
+		if !m.Locked() && slots <= 8 {
+			ops = append(ops, model.Op{K: model.OpNewEntities, N: 1, Fn: true, Leak: true})
+		}
 		if !m.Locked() {
 			if len(al) < 4 {
 				ops = append(ops, model.Op{K: model.OpNew, Path: model.PathMapN, Cs: ct.Of(ct.P, ct.Q)})
@@ -190,7 +195,7 @@ func init() {
 			NonTrivial: func(x *drv.World) bool { return x.M.Locked() },
 		}
 		return &Check{ID: "C07", Scenarios: []*engine.Scenario{sc, sc64},
-			Rule: "all histories over Open (typed uncached, typed cached, unsafe) / Next / Close (also of finished and closed queries) in 4 slots, i.e. all nestings, overlaps and lock-bit recycle orders for 4 bits, and from preludes with 61 (and 58 with holes) queries already open so that bits 61-63 and the 64-query boundary are reached (the 64th query is opened by the oracle's own queries); non-structural Set / pointer write / Emit / new queries must work while locked; at every node with a locked world one representative of every structural operation kind and API path (about 40 calls incl. Reset, Shrink, registering a component type, LoadEntities, all batch forms) is attempted: each must panic and leave the observable state unchanged (full comparison after each); removal-observer and batch callbacks attempt 8 structural calls from inside; IsLocked and Stats().Locked equal the model in every state; non-trivial = world locked",
+			Rule: "all histories over Open (typed uncached, typed cached, unsafe) / Next / Close (also of finished and closed queries) in 4 slots, i.e. all nestings, overlaps and lock-bit recycle orders for 4 bits, and from preludes with 61 (and 58 with holes) queries already open so that bits 61-63 and the 64-query boundary are reached (the 64th query is opened by the oracle's own queries); non-structural Set / pointer write / Emit / new queries must work while locked; a query opened inside a NewEntities callback may stay open after the call and is closed at any later point (its lock bit must stay reserved); at every node with a locked world one representative of every structural operation kind and API path (about 40 calls incl. Reset, Shrink, registering a component type, LoadEntities, all batch forms) is attempted: each must panic and leave the observable state unchanged (full comparison after each); removal-observer and batch callbacks attempt 8 structural calls from inside; IsLocked and Stats().Locked equal the model in every state; non-trivial = world locked",
 		}
 	}
 }
